@@ -5,7 +5,7 @@ CONSTANTS
   Vals = {"va"}
   HistDepth = 40
   MaxIds = 30
-  Ops = {"begin", "set", "save", "reget", "getbyid"}
+  Ops = {"begin", "set", "save", "getbyid", "byidsave", "freeticks"}
   Modes = {"store"}
 INVARIANT EmitHist
 INVARIANT NeverAdoptForeignId
